@@ -412,12 +412,12 @@ def clauses(tier):
         Clause(
             "roundtrip", check_roundtrip,
             "well-formed file read back; non-trivial = data section > 16384 bytes and frame size does not divide 16384",
-            lambda: _file_cases(False), quick=3000, thorough=48000,
+            lambda: _file_cases(False), quick=2200, thorough=48000,
         ),
         Clause(
             "truncated", check_truncated,
             "data section cut at a drawn byte (tail, read boundary, anywhere, almost nothing); every case is non-trivial",
-            lambda: _file_cases(True), quick=2000, thorough=32000,
+            lambda: _file_cases(True), quick=1400, thorough=32000,
          fuzz_runs=2500),
         Clause(
             "g711_tables", check_g711_code,
